@@ -233,7 +233,7 @@ class ConcurrentCacher(Cacher[_K, _V]):
         while True:
             with self._lock:
                 if self._array[index] >= 0:
-                    self._locks[(current_thread().ident,key)] += 1
+                    self._locks[(current_thread().ident,self._index(key))] += 1
                     self._array[index] += 1
                     self._read_waits -= 1
                     break
@@ -243,7 +243,7 @@ class ConcurrentCacher(Cacher[_K, _V]):
         index = self._index(key)
         with self._lock:
             self._array[index] -= 1
-            self._locks[(current_thread().ident,key)] -= 1
+            self._locks[(current_thread().ident,self._index(key))] -= 1
 
     def _acquire_write_lock(self, key) -> ContextManager:
         if self._has_write_lock(key) or self._has_read_lock(key):
@@ -253,7 +253,7 @@ class ConcurrentCacher(Cacher[_K, _V]):
         while True:
             with self._lock:
                 if self._array[index] == 0:
-                    self._locks[(current_thread().ident,key)] = -1
+                    self._locks[(current_thread().ident,self._index(key))] = -1
                     self._array[index] = -1
                     self._write_waits -= 1
                     break
@@ -263,21 +263,21 @@ class ConcurrentCacher(Cacher[_K, _V]):
         index = self._index(key)
         with self._lock:
             self._array[index] = 0
-            self._locks[(current_thread().ident,key)] = 0
+            self._locks[(current_thread().ident,self._index(key))] = 0
 
     def _switch_write_to_read_lock(self, key) -> None:
         index = self._index(key)
         assert self._array[index] == -1, "You don't have write permissions"
-        assert self._locks[(current_thread().ident,key)] == -1, "You don't have write permissions"
+        assert self._locks[(current_thread().ident,self._index(key))] == -1, "You don't have write permissions"
         with self._lock:
             self._array[index] = 1
-            self._locks[(current_thread().ident,key)] = 1
+            self._locks[(current_thread().ident,self._index(key))] = 1
 
     def _has_read_lock(self, key) -> bool:
-        return self._locks[(current_thread().ident,key)] > 0
+        return self._locks[(current_thread().ident,self._index(key))] > 0
 
     def _has_write_lock(self, key) -> bool:
-        return self._locks[(current_thread().ident,key)] == -1
+        return self._locks[(current_thread().ident,self._index(key))] == -1
 
     def _index(self, key) -> int:
         return int.from_bytes(blake2b(str(key).encode('utf-8'),digest_size=self._digest_size).digest(),"big")
